@@ -15,7 +15,7 @@ from .. import astutil as A
 from ..fa import FA
 from ..loader import AnalysisError
 from .c15 import (FRAME, absent_edges, alias_text, batch_seqs, body_starts, call_batch_dispatch, enclosing_position, expand_alias, heads_of,
-                  is_calling_frame, iteration_counts, not_edges, origins, position_loops, pushes, result_loops, result_name, under)
+                  is_calling_frame, iteration_counts, nfa, normal_form, not_edges, origins, position_loops, pushes, result_loops, result_name, sense, under)
 
 RL = "runner_local"
 INV_LIST = ("invocation_metadata", "invocations")
@@ -29,12 +29,13 @@ OWN_REF = ("invocation_metadata", "fn_reference_with_args")
 class Site:
     """One place where a callee's provenance is written into a caller's memento."""
 
-    def __init__(self, anchor, inline, caller_src, caller, result, at, parts):
+    def __init__(self, anchor, inline, caller_src, caller, result, at, parts, result_src=None):
         self.anchor = anchor          # AST node the obligations are keyed on
         self.inline = inline          # written out in place (True) / a call of propagate_dependencies (False)
         self.caller_src = caller_src  # the expression (as written) through which the caller's memento is reached
         self.caller = caller          # expanded expression denoting the caller's memento (None: not recognisable)
         self.result = result          # expanded expression denoting the callee's memento (None: not recognisable)
+        self.result_src = result_src  # ... as written (roles are decided on the expression in place)
         self.at = at
         self.parts = parts            # node-id lists: [call] or [append, add, merge]
 
@@ -121,7 +122,7 @@ def prop_sites(fa):
             continue
         cm = A.arg_or_kw(c, 0, P_CALLER)
         rm = A.arg_or_kw(c, 1, P_RESULT)
-        sites.append(Site(c, False, cm, fa.expand(cm, ids[0]) if cm is not None else None, fa.expand(rm, ids[0]) if rm is not None else None, ids[0], [ids]))
+        sites.append(Site(c, False, cm, fa.expand(cm, ids[0]) if cm is not None else None, fa.expand(rm, ids[0]) if rm is not None else None, ids[0], [ids], rm))
     ups = None
     for pu in pushes(fa):
         c, recv = pu.node, pu.recv
@@ -316,7 +317,7 @@ def _escapes(fa, starts, sites, extra_removed, edge_ok, targets, include_start=T
         removed = set(extra_removed)
         for s in sites:
             removed |= set(s.part(k))
-        r = fa.cfg.reach(starts, removed=removed, edge_ok=edge_ok, include_start=include_start)
+        r = sense(fa).reach(starts, removed=removed, edge_ok=edge_ok, include_start=include_start)
         if set(targets) & r:
             return k, removed
     return None
@@ -327,7 +328,7 @@ def _escapes(fa, starts, sites, extra_removed, edge_ok, targets, include_start=T
 # =================================================================================================
 
 def _r1_batch(ck, R1):
-    br = FA(ck, RL + ".LocalRunnerBackend.batch_run")
+    br = nfa(ck, RL + ".LocalRunnerBackend.batch_run")
     seqs = batch_seqs(br)
     ploops = position_loops(br, seqs)
     sites = prop_sites(br)
@@ -358,7 +359,7 @@ def _r1_batch(ck, R1):
         recs = {i for s in sites for i in s.part(0)}
         again = None
         for i in sorted(recs):
-            r = br.cfg.reach([i], removed=set(heads), include_start=False)
+            r = sense(br).reach([i], removed=set(heads), include_start=False)
             if (recs | run_nodes) & r:
                 again = i
         ck.paths_enumerated += 1
@@ -373,7 +374,8 @@ def _r1_batch(ck, R1):
             # the element's own memento out of the bulk answer
             home = enclosing_position(br, ploops, s.anchor)
             dr = br.deps(s.result, s.at)
-            okr = (home is not None and home[1].elem_role(seqs, s.result, s.at) == "bulk") \
+            okr = (home is not None and "bulk" in (home[1].elem_role(seqs, s.result_src, s.at) if s.result_src is not None else None,
+                                                   home[1].elem_role(seqs, s.result, s.at))) \
                 or ("op:subscript" in dr and any(d.startswith("call:get_mementos") for d in dr))
         oki = all(s.parts)
         ck.ob(R1, br.key(s.anchor, "args"), okc and okr and oki, "propagates the stored memento into the calling frame's memento" if okc and okr and oki else
@@ -502,7 +504,7 @@ def deferred_written_out(ck, fi):
 
 def run_local_fa(ck):
     """memento_run_local as the frame rules read it (see deferred_written_out)."""
-    return FA(ck, deferred_written_out(ck, ck.fn(RL + ".memento_run_local")))
+    return FA(ck, normal_form(ck, deferred_written_out(ck, ck.fn(RL + ".memento_run_local"))))
 
 
 class FrameScope:
@@ -719,7 +721,7 @@ def _r2(ck, R2):
 # =================================================================================================
 
 def _r3(ck, R3):
-    pd = FA(ck, RL + ".propagate_dependencies")
+    pd = nfa(ck, RL + ".propagate_dependencies")
     P_CALLER, P_RESULT = _pd_params(ck)
     INV = "%s.invocation_metadata.invocations" % P_CALLER
     DEPS = "%s.function_dependencies" % P_CALLER
@@ -852,7 +854,7 @@ def _mutable_default_reaches_record(ck, module):
 
 
 def _r4(ck, R4):
-    sfi = FA(ck, "call_stack.StackFrame.__init__")
+    sfi = nfa(ck, "call_stack.StackFrame.__init__")
     OWN = sfi.fi.params[1] if len(sfi.fi.params) > 1 else "fn_reference_with_args"
     mc = sfi.one([c for c in sfi.calls("Memento") if sfi.nodes(c)], "Memento(...) construction")
     at = sfi.nodes(mc)[0]
@@ -884,7 +886,7 @@ def _r4(ck, R4):
 # =================================================================================================
 
 def _r5(ck, R5):
-    rf = FA(ck, "resource_function.ResourceFunction.__call__")
+    rf = nfa(ck, "resource_function.ResourceFunction.__call__")
     RES = FRAME + ".memento.invocation_metadata.resources"
     apps = [pu for pu in pushes(rf) if alias_text(rf, pu.recv, rf.nodes(pu.node)[0]) == RES]
     no_caller = absent_edges(rf, is_calling_frame(rf))
@@ -914,7 +916,7 @@ def _r5(ck, R5):
 # =================================================================================================
 
 def _r6(ck, R6):
-    cb = FA(ck, "base.MementoFunctionBase.call_batch")
+    cb = nfa(ck, "base.MementoFunctionBase.call_batch")
     _run, _seqs, _arg, elts = call_batch_dispatch(cb)
     ok = bool(elts)
     ck.ob(R6, cb.key(None, "dispatches-all-elements"), ok, "every requested element is submitted, duplicates included" if ok else
